@@ -9,6 +9,8 @@ mod c03;
 mod c18;
 mod c20;
 mod c07;
+mod c15;
+mod c10;
 
 use std::io::{BufWriter, Write};
 
@@ -33,6 +35,8 @@ fn main() {
                 "C18" => c18::gen(tier, seed, &mut out),
                 "C20" => c20::gen(tier, seed, &mut out),
                 "C07" => c07::gen(tier, seed, &mut out),
+                "C15" => c15::gen(tier, seed, &mut out),
+                "C10" => c10::gen(tier, seed, &mut out),
                 _ => {
                     eprintln!("unknown property {}", prop);
                     std::process::exit(2);
@@ -59,6 +63,7 @@ fn main() {
                 writeln!(out, "{} => {}", input, obs).unwrap();
             }
         }
+        "c10child" => c10::child(&args[2], &args[3]),
         _ => {
             eprintln!("unknown command");
             std::process::exit(2);
@@ -100,6 +105,8 @@ fn replay_one(toks: &[&str]) -> String {
             }
         }
         "C07" => c07::replay(toks),
+        "C15" => c15::observe(toks),
+        "C10" => c10::observe(toks),
         other => format!("unknown-model {}", other),
     }
 }
